@@ -193,6 +193,11 @@ class Executor(ExprMixin, StmtMixin, LoopMixin):
                 goal = z3.BoolVal(True)
         if getattr(self.c, "canon_binders", False):
             info = dict(info or {}, canon_binders=True)
+        if getattr(self.c, "portfolio", None):
+            from . import solve as _solve
+
+            _solve.ordered_portfolio(self.c.portfolio)  # (a misspelt configuration name fails here, at generation)
+            info = dict(info or {}, portfolio=list(self.c.portfolio))
         name = f"{self.label_prefix}{self.fn_name}.{kind}.{label}"
         k = self._names.get(name, 0)
         self._names[name] = k + 1
@@ -537,6 +542,12 @@ class Executor(ExprMixin, StmtMixin, LoopMixin):
         if isinstance(fnode, ast.Attribute) and fnode.attr in MUTATORS:
             recv = self.eval(fnode.value, st)
             if not isinstance(recv.ty, T.Ref) and not (recv.is_py and recv.ty is PYOBJ and not isinstance(recv.py, (list, dict, set))):
+                if fnode.attr == "extend" and len(node.args) == 1 and not node.keywords and self.is_dedupe_extend(node.args[0], fnode.value):
+                    self.check_alias(fnode.value.id, st, node)
+                    nv = self.extend_dedupe(st, recv, node.args[0], node)
+                    self.assign_target(fnode.value, nv, st, node, mutate=True)
+                    self.assumptions_used.add("python-container-semantics")
+                    return Val.const(None)
                 args = [self.eval(a, st) for a in node.args]
                 kwargs = {k.arg: self.eval(k.value, st) for k in node.keywords}
                 root = fnode.value
@@ -628,6 +639,83 @@ class Executor(ExprMixin, StmtMixin, LoopMixin):
         if not 0 <= c <= limit:
             return None
         return c if self.entails(st, ln == c) else None
+
+    def is_dedupe_extend(self, g, recv_node) -> bool:
+        """`xs.extend(v for v in SRC if v not in xs)` with xs a plain name that SRC does not mention"""
+        if not (isinstance(g, ast.GeneratorExp) and len(g.generators) == 1 and isinstance(recv_node, ast.Name)):
+            return False
+        gen = g.generators[0]
+        if gen.is_async or len(gen.ifs) != 1 or not isinstance(gen.target, ast.Name) or not isinstance(g.elt, ast.Name) or g.elt.id != gen.target.id:
+            return False
+        if gen.target.id == recv_node.id:
+            return False
+        t = gen.ifs[0]
+        if not (isinstance(t, ast.Compare) and len(t.ops) == 1 and isinstance(t.ops[0], ast.NotIn) and isinstance(t.left, ast.Name) and t.left.id == gen.target.id
+                and isinstance(t.comparators[0], ast.Name) and t.comparators[0].id == recv_node.id):
+            return False
+        return not any(isinstance(n, ast.Name) and n.id == recv_node.id for n in ast.walk(gen.iter))
+
+    def extend_dedupe(self, st, recv: Val, g, node) -> Val:
+        """The real semantics of `xs.extend(v for v in SRC if v not in xs)`: CPython runs the generator LAZILY, so every
+        membership test sees the elements this very call has appended so far -- a fold over SRC:
+
+            for v in SRC:            # SRC evaluated once, before the first append
+                if v not in xs: xs.append(v)
+
+        * SRC of known (small) length: the fold is unrolled exactly (nested ite);
+        * otherwise the appended part N is a fresh list described by facts that hold of the real result (and determine
+          it): N[j] == SRC[pos(j)] with pos strictly increasing (first occurrences, in order), no N[j] in the old xs, N
+          duplicate-free, every SRC[i] outside the old xs is in N, and no earlier SRC[i] equals N[j]."""
+        from . import models
+        from .core import seq_contains_elem
+
+        if self.qstack:
+            raise Unsupported("extend() with a generator inside a quantified expression", node)
+        gen = g.generators[0]
+        src = models._list(self, st, [self.eval(gen.iter, st)], {}, node)
+        if recv.is_py and not isinstance(recv.py, list):
+            raise Unsupported("extend() on a non-list", node)
+        if isinstance(recv.ty, T.List) and not recv.is_py:
+            lt = recv.ty
+        elif isinstance(src.ty, T.List) and not src.is_py:
+            lt = T.List(src.ty.elem) if type(src.ty) is not T.List else src.ty
+        else:
+            want = self.c.locals.get(getattr(node.func.value, "id", None)) if self.c else None
+            if not isinstance(want, T.List):
+                raise Unsupported("extend(<generator>) on a constant list from a constant source: declare the local's type", node)
+            lt = want
+        et = lt.elem
+        if isinstance(et, T.Ref):
+            pycls = self.real_class(self.class_of(et))
+            if pycls is not None and any("__eq__" in vars(k) for k in pycls.__mro__ if k is not object):
+                raise Unsupported(f"`not in` over objects of {pycls.__qualname__}, which defines __eq__", node)
+        old = lift(recv, lt)
+        items = None
+        if src.is_py and isinstance(src.py, (list, tuple)):
+            items = [lift(x if isinstance(x, Val) else Val.const(x), et) for x in src.py]
+        elif isinstance(src.ty, T.List):
+            k = self.known_length(st, src, limit=6)
+            if k is not None:
+                items = [lift(src)[i] for i in range(k)]
+        else:
+            raise Unsupported(f"extend(<generator>) over {src.ty}", node)
+        if items is not None:
+            cur = old
+            for e in items:
+                cur = z3.If(seq_contains_elem(cur, e), cur, z3.Concat(cur, z3.Unit(e)))
+            return Val(lt, cur)
+        S = lift(src, lt) if src.ty != lt else lift(src)
+        N = z3.Const(fresh_name("ext_new"), lt.sort())
+        pos = z3.Function(fresh_name("ext_pos"), z3.IntSort(), z3.IntSort())
+        j, k, i = z3.Int(fresh_name("ej")), z3.Int(fresh_name("ek")), z3.Int(fresh_name("ei"))
+        nN, nS = z3.Length(N), z3.Length(S)
+        st.assume(nN <= nS)
+        st.assume(z3.ForAll([j], z3.Implies(z3.And(j >= 0, j < nN),
+                                            z3.And(pos(j) >= 0, pos(j) < nS, N[j] == S[pos(j)], z3.Not(seq_contains_elem(old, N[j])))), patterns=[N[j]]))
+        st.assume(z3.ForAll([j, k], z3.Implies(z3.And(j >= 0, j < k, k < nN), z3.And(pos(j) < pos(k), N[j] != N[k])), patterns=[z3.MultiPattern(N[j], N[k])]))
+        st.assume(z3.ForAll([i], z3.Implies(z3.And(i >= 0, i < nS, z3.Not(seq_contains_elem(old, S[i]))), z3.Contains(N, z3.Unit(S[i]))), patterns=[S[i]]))
+        st.assume(z3.ForAll([j, i], z3.Implies(z3.And(j >= 0, j < nN, i >= 0, i < pos(j)), S[i] != N[j]), patterns=[z3.MultiPattern(N[j], S[i])]))
+        return Val(lt, z3.Concat(old, N))
 
     def is_logger(self, n):
         if isinstance(n, ast.Name) and n.id in LOGGER_NAMES:
@@ -1034,10 +1122,22 @@ def _f_implies(ex, node, st):
     mark = len(st.pc)
     if a is not True:
         push_guard(st, a)
+    # `implies(x is not None [and ..], .. x ..)`: the consequent sees the Optional name x at its value (as the body of
+    # `if x is not None:` does); under the guard the two are the same value
+    saved = {}
+    conj = node.args[0].values if isinstance(node.args[0], ast.BoolOp) and isinstance(node.args[0].op, ast.And) else [node.args[0]]
+    for t in conj:
+        if (isinstance(t, ast.Compare) and len(t.ops) == 1 and isinstance(t.ops[0], ast.IsNot) and isinstance(t.left, ast.Name)
+                and isinstance(t.comparators[0], ast.Constant) and t.comparators[0].value is None):
+            v = st.env.get(t.left.id)
+            if v is not None and isinstance(v.ty, T.Opt) and not v.is_py and t.left.id not in saved and ("link", t.left.id) not in st.ghost:
+                saved[t.left.id] = v
+                st.env[t.left.id] = Val(v.ty.inner, v.ty.sort().val(v.term))
     try:
         b = ex.cond(node.args[1], st)
     finally:
         pop_guards(st, mark)
+        st.env.update(saved)
     return bool_val(z_implies(a, b))
 
 
